@@ -251,6 +251,10 @@ def canaries(chk, prog):
 
 
 def run(chk, prog, tier):
+    from sa import lints
+    mm = prog.module("ahrs/utils/metrics.py")
+    lints.no_sign_zero(chk, prog, list(mm.funcs.values()), "for two quaternions with exactly zero inner product (rotations a half-turn apart) the antipode selection "
+                       "by np.sign(<q1,q2>) zeroes one operand; min(|q1-q2|, |q1+q2|) has no such hole")
     quaternion_metrics(chk, prog)
     matrix_metrics(chk, prog)
     euclid(chk, prog)
